@@ -13,7 +13,8 @@ EXPLANATION = ("R10.1 triaged inventory of every may-panic construct (overflow/b
                "RefCell borrow; R10.7 loop inventory: every loop is iterator-driven, receive-driven, or a triaged loop whose termination guard is "
                "checked structurally. R10.1 also: the restart number is looked up in the same path component the sibling filter examined (F29 fixed)."
                " R10.8 (shared with R07.6): shutdown joins the cleanup thread while holding the state lock; on the decision rows of that thread a stop message taken from the channel by ANY receive (blocking or not) ends the thread, so the join returns."
-               " R10.9 (shared with R14.2): the directory listing keeps regular files only and the family predicate is exact, so no FIFO / socket / directory named like a log file reaches File::open under the state lock.")
+               " R10.9 (shared with R14.2): the directory listing keeps regular files only and the family predicate is exact, so no FIFO / socket / directory named like a log file reaches File::open under the state lock."
+               " R10.1 also (shared with R17.2): the guards that discharge the may-panic constructs of the specification text forms dominate them (e.g. is_empty() before module_filters[0] in to_toml).")
 ASSUMPTIONS = ["user format functions, writers and Display impls are total and return (they may log recursively)", "dependencies do not panic",
                "poisoning needs a panic under the lock, which R10.2 excludes"]
 NOT_DECIDED = ["termination of user code", "panics inside dependencies", "stack exhaustion of the 1 KiB flusher threads", "hangs caused by the OS"]
@@ -109,6 +110,11 @@ def run(R, ctx):
     # whatever the directory contains: cleanup opens (compression) and the start-up code stats the files the listing returns, under the state lock.  The
     # listing keeps REGULAR files only (`is_file`): a FIFO / socket / device node named like a rotated file would make File::open block for ever - the
     # log call hangs holding the lock (whole-function tables of the listing and of the family predicate, shared with R14.2)
+    # the triage class INV (`cannot happen because of a check made before`) of the specification text forms is itself checked: every may-panic construct
+    # reachable from parse / to_toml / from_toml / Display is dominated by its guard (the is_empty() test before `module_filters[0]`), so that hoisting or
+    # reordering the guarded expression is reported (shared with R17.2) - start_with_specfile renders the initial specification at logger start
+    import c17 as _c17
+    _c17.panics(Relabel(R, {'R17.2': 'R10.1'}), ctx)
     family_predicate_proxy(R, ctx, 'R10.9', 'the listing hands only regular files of the family to code that opens them (shared with R14.2)')
 
     entries = [b.path for b in pub_api_bodies(f)]
